@@ -388,6 +388,11 @@ def run(model, rep):
     rule_d(model, rep)
     # a preset recognises (and verifies) its own schemes only if each scheme's verify() recomputes what hash() made, identify() answers
     # for every str/bytes input, and the lazily built presets (LazyCryptContext) finish their one-time construction correctly
-    _c01.rule_d(model, _Renamed(rep, {"C01.d": "C17.e-hash-verify-wiring"}, "C17.x-"))
+    from .shared import handler_site_filter
+    only, used = handler_site_filter(model, table, ("passlib.apps", "passlib.hosts", "passlib.apache"))
+    rep.extra["preset_handlers"] = used
+    _c01.rule_d(model, _Renamed(rep, {"C01.d": "C17.e-hash-verify-wiring"}, "C17.x-", only=only))
+    rep.minimum("C17.e-hash-verify-wiring", 40)
     _c08.rule_c(model, _Renamed(rep, {"C08.c": "C17.f-decoder-errors"}, "C17.x-"))
-    _c19.rule_a(model, _Renamed(rep, {"C19.a": "C17.g-lazy-preset-init"}, "C17.x-"))
+    _c19.rule_a(model, _Renamed(rep, {"C19.a": "C17.g-lazy-preset-init"}, "C17.x-", only=lambda s: "LazyCryptContext" in s))
+    rep.minimum("C17.g-lazy-preset-init", 3)
